@@ -550,7 +550,13 @@ static bool read_lead(zckCtx *zck) {
 
     /* Read header digest */
     zck_log(ZCK_LOG_DEBUG, "Reading header digest");
-    header = zrealloc(header, length + zck->hash_type.digest_size);
+    /* Never shrink the buffer below what has already been read into it: with a
+     * 16 byte digest the lead is shorter than the initial read, and the extra
+     * bytes are the beginning of the header proper */
+    size_t lead_alloc = length + zck->hash_type.digest_size;
+    if(lead_alloc < (size_t)lead)
+        lead_alloc = lead;
+    header = zrealloc(header, lead_alloc);
     if (!header) {
         zck_log(ZCK_LOG_ERROR, "OOM in %s", __func__);
         return false;
